@@ -18,6 +18,13 @@ package apd
 // has zero precision, no rounding will occur. If c has no Rounding specified,
 // RoundHalfUp is used.
 func (c *Context) Round(d, x *Decimal) (Condition, error) {
+	if c.shouldSetAsNaN(x, nil) {
+		return c.setAsNaN(d, x, nil)
+	}
+	if x.Form == Infinite {
+		d.Set(x)
+		return 0, nil
+	}
 	return c.goError(c.round(d, x))
 }
 
